@@ -115,3 +115,344 @@ def legacy_prints(xdg, listdir=os.listdir):
 def listing(xdg, listdir=os.listdir):
     d = data_dir(xdg)
     return sorted(listdir(d)) if os.path.isdir(d) else []
+
+
+# ---------------------------------------------------------------------------
+# round 5: legal legacy content that today's writer never produces
+#
+# The legacy files of a case are written through today's PeeweeStorage API, so every row has the shape today's
+# code writes (datastr = json.dumps(..) text, `created` as handed in, timestamps as isoformat(" ") .., rollback
+# journal, 4 KiB pages, exactly peewee's tables and indexes).  `apply_raw(path, steps)` rewrites the finished file
+# with plain sqlite3 into OTHER REPRESENTATIONS OF THE SAME CONTENT that the legacy schema and the legacy reader
+# admit (earlier releases, other sqlite versions, other tools that touched the file).  Every step leaves the
+# content as read by `raw_content` (the harness's own reading of the legacy schema) unchanged -- apply_raw checks
+# that -- so the oracle's expected side stays the dump taken through the API before the rewrite.
+
+ORDER_KEEPING = {"bucket_empty_data", "bucket_json", "event_json", "created", "journal", "page_size", "auto_vacuum",
+                 "user_version", "application_id", "extra_table", "extra_column", "churn", "id_shift", "key_shift",
+                 "ts_T", "ts_frac6", "schema_cookie", "orphans", "rebuild"}
+# steps after which peewee's textual ORDER BY timestamp / its tie order may differ from the model's (the model is
+# built from the API ops): such cases are judged by the property oracle alone
+ORDER_CHANGING = {"ts_mixed_T", "ts_Z", "ts_offset", "id_reverse", "extra_index"}
+# steps that take the file to an OLDER schema which PeeweeStorage.__init__ upgrades in place by itself (bytes change
+# on the unchanged tree; the clause is read at content level for them, like the pre-datastr file)
+OLDER_SCHEMA = {"drop_index"}
+
+# The legacy format as released (peewee v2 file of aw-core: PeeweeStorage's create_table output, sqlite defaults).  The
+# format is frozen by nature; step ["rebuild"] writes the rows found into a NEW file with exactly these statements, so
+# that the legacy file of a case does not depend on what the PeeweeStorage under test does when it creates / opens a
+# file (schema objects, pragmas, journal mode ..): a legacy file as an installation of the released code holds it.
+RELEASED_DDL = [
+    'CREATE TABLE "bucketmodel" ("key" INTEGER NOT NULL PRIMARY KEY, "id" VARCHAR(255) NOT NULL, "created" DATETIME NOT NULL, '
+    '"name" VARCHAR(255), "type" VARCHAR(255) NOT NULL, "client" VARCHAR(255) NOT NULL, "hostname" VARCHAR(255) NOT NULL, '
+    '"datastr" VARCHAR(255))',
+    'CREATE UNIQUE INDEX "bucketmodel_id" ON "bucketmodel" ("id")',
+    'CREATE TABLE "eventmodel" ("id" INTEGER NOT NULL PRIMARY KEY, "bucket_id" INTEGER NOT NULL, "timestamp" DATETIME NOT NULL, '
+    '"duration" DECIMAL(10, 5) NOT NULL, "datastr" VARCHAR(255) NOT NULL, FOREIGN KEY ("bucket_id") REFERENCES "bucketmodel" ("key"))',
+    'CREATE INDEX "eventmodel_bucket_id" ON "eventmodel" ("bucket_id")',
+    'CREATE INDEX "eventmodel_timestamp" ON "eventmodel" ("timestamp")',
+]
+
+JSON_STYLES = ["compact", "utf8", "spaced", "reversed", "indent", "padded"]
+EMPTY_FORMS = {"null": None, "empty": "", "braces": "{}", "spaced": "{ }", "padded": " {}\n"}
+CREATED_FORMS = ["T-utc", "space-utc", "Z", "naive-T", "offset", "neg-offset-space", "frac6", "basic-offset", "hour-offset"]
+
+
+def raw_order_keeping(steps):
+    return not any(s[0] in ORDER_CHANGING for s in steps or [])
+
+
+def raw_older_schema(steps):
+    return any(s[0] in OLDER_SCHEMA for s in steps or [])
+
+
+def _reverse_keys(v):
+    if isinstance(v, dict):
+        return {k: _reverse_keys(x) for k, x in reversed(list(v.items()))}
+    if isinstance(v, list):
+        return [_reverse_keys(x) for x in v]
+    return v
+
+
+def restyle_json(text, style):
+    """another JSON text of the same value"""
+    import json
+    v = json.loads(text)
+    if style == "compact":
+        return json.dumps(v, separators=(",", ":"))
+    if style == "utf8":
+        return json.dumps(v, ensure_ascii=False)
+    if style == "spaced":
+        return json.dumps(v, separators=(" , ", " : "))
+    if style == "reversed":
+        return json.dumps(_reverse_keys(v))
+    if style == "indent":
+        return json.dumps(v, indent=2, sort_keys=True)
+    if style == "padded":
+        return " \t" + json.dumps(v) + "\r\n"
+    raise ValueError(style)
+
+
+def _parse_instant(text):
+    """-> aware datetime; a text without offset denotes UTC (as iso8601.parse_date reads it)"""
+    from datetime import datetime, timezone
+    d = text if isinstance(text, datetime) else datetime.fromisoformat(str(text).replace("Z", "+00:00"))
+    return d.replace(tzinfo=timezone.utc) if d.tzinfo is None else d
+
+
+def _us(text):
+    from datetime import datetime, timedelta, timezone
+    return (_parse_instant(text) - datetime(1970, 1, 1, tzinfo=timezone.utc)) // timedelta(microseconds=1)
+
+
+def restyle_instant(text, form):
+    """another text of the same instant"""
+    from datetime import timedelta, timezone
+    d = _parse_instant(text)
+    u = d.astimezone(timezone.utc)
+    if form == "T-utc":
+        return u.isoformat()
+    if form == "space-utc":
+        return u.isoformat(" ")
+    if form == "Z":
+        return u.isoformat().replace("+00:00", "Z")
+    if form == "naive-T":
+        return u.replace(tzinfo=None).isoformat()
+    if form == "naive-space":          # NOT admissible (peewee turns it into a datetime, BucketModel.json raises): probes only
+        return u.replace(tzinfo=None).isoformat(" ")
+    if form == "offset":
+        return u.astimezone(timezone(timedelta(hours=5, minutes=30))).isoformat()
+    if form == "neg-offset-space":
+        return u.astimezone(timezone(timedelta(hours=-8))).isoformat(" ")
+    if form == "frac6":
+        return u.strftime("%Y-%m-%dT%H:%M:%S.") + f"{u.microsecond:06d}+00:00"
+    if form == "basic-offset":
+        return u.isoformat().replace("+00:00", "+0000")
+    if form == "hour-offset":
+        return u.astimezone(timezone(timedelta(hours=2))).isoformat().replace("+02:00", "+02")
+    raise ValueError(form)
+
+
+def raw_content(path):
+    """The harness's own reading of a legacy file (plain sqlite3, no aw-core): per bucket (id, name, type, client,
+    hostname, created instant us, data value) and the multiset of (bucket id, instant us, duration us, data value)."""
+    import json
+    import sqlite3
+    from decimal import Decimal
+    import shutil
+    import tempfile
+    tmp = tempfile.mkdtemp(prefix="c14-raw-")       # read a copy: a reader of a WAL-mode file leaves -wal / -shm files behind
+    for ext in ("", "-wal", "-journal"):
+        if os.path.exists(path + ext):
+            shutil.copy2(path + ext, os.path.join(tmp, "copy.db" + ext))
+    c = sqlite3.connect(os.path.join(tmp, "copy.db"))
+    try:
+        cols = [r[1] for r in c.execute("PRAGMA table_info(bucketmodel)")]
+        ds = "datastr" if "datastr" in cols else "NULL"
+        buckets = [[r[1], r[2], r[3], r[4], r[5], _us(r[6]), json.loads(r[7]) if r[7] else {}, r[0]] for r in c.execute(
+            f"SELECT key, id, name, type, client, hostname, created, {ds} FROM bucketmodel ORDER BY key")]
+        by_key = {b[-1]: b[0] for b in buckets}
+        events = sorted(
+            (json.dumps([by_key.get(r[0]), _us(r[1]), int((Decimal(str(r[2])) * 1_000_000).to_integral_value()),
+                         json.loads(r[3])], sort_keys=True)
+             for r in c.execute("SELECT bucket_id, timestamp, duration, datastr FROM eventmodel") if r[0] in by_key))
+        return {"buckets": [b[:-1] for b in buckets], "events": events}
+    finally:
+        c.close()
+        shutil.rmtree(tmp, ignore_errors=True)
+
+
+def rebuild_released(path):
+    """the rows of `path` (values and storage classes as found) in a new file with the released schema, sqlite defaults"""
+    import sqlite3
+    src = sqlite3.connect(path)
+    brows = src.execute("SELECT key, id, created, name, type, client, hostname, datastr FROM bucketmodel ORDER BY key").fetchall()
+    erows = src.execute("SELECT id, bucket_id, timestamp, duration, datastr FROM eventmodel ORDER BY id").fetchall()
+    src.close()
+    new = path + ".rebuild"
+    if os.path.exists(new):
+        os.unlink(new)
+    c = sqlite3.connect(new, isolation_level=None)
+    for stmt in RELEASED_DDL:
+        c.execute(stmt)
+    c.execute("BEGIN")
+    c.executemany("INSERT INTO bucketmodel (key, id, created, name, type, client, hostname, datastr) VALUES (?, ?, ?, ?, ?, ?, ?, ?)", brows)
+    c.executemany("INSERT INTO eventmodel (id, bucket_id, timestamp, duration, datastr) VALUES (?, ?, ?, ?, ?)", erows)
+    c.execute("COMMIT")
+    c.close()
+    for ext in ("-wal", "-shm", "-journal"):
+        if os.path.exists(path + ext):
+            os.unlink(path + ext)
+    os.replace(new, path)
+
+
+def apply_raw(path, steps):
+    """rewrite the finished legacy file `path` (see above).  Raises if a step changed the content."""
+    import sqlite3
+    if not steps:
+        return
+    before = raw_content(path)
+    for step in steps:
+        name = step[0]
+        if name == "rebuild":
+            rebuild_released(path)
+            continue
+        c = sqlite3.connect(path, isolation_level=None)
+        try:
+            if name == "bucket_empty_data":        # [_, form]: every bucket without data
+                for key, text in c.execute("SELECT key, datastr FROM bucketmodel").fetchall():
+                    import json
+                    if not text or json.loads(text) == {}:
+                        c.execute("UPDATE bucketmodel SET datastr = ? WHERE key = ?", (EMPTY_FORMS[step[1]], key))
+            elif name == "bucket_json":            # [_, style]: every bucket with data
+                for key, text in c.execute("SELECT key, datastr FROM bucketmodel").fetchall():
+                    if text and text.strip() not in ("", "{}"):
+                        c.execute("UPDATE bucketmodel SET datastr = ? WHERE key = ?", (restyle_json(text, step[1]), key))
+            elif name == "event_json":             # [_, style, every k-th row, from row r]
+                k, r0 = max(1, int(step[2])), int(step[3]) if len(step) > 3 else 0
+                c.execute("BEGIN")
+                for n, (i, text) in enumerate(c.execute("SELECT id, datastr FROM eventmodel ORDER BY id").fetchall()):
+                    if n % k == r0 % k:
+                        c.execute("UPDATE eventmodel SET datastr = ? WHERE id = ?", (restyle_json(text, step[1]), i))
+                c.execute("COMMIT")
+            elif name == "created":                # [_, form, ..]: bucket n gets form[n mod len]
+                forms = step[1:]
+                for n, (key, text) in enumerate(c.execute("SELECT key, created FROM bucketmodel ORDER BY key").fetchall()):
+                    c.execute("UPDATE bucketmodel SET created = ? WHERE key = ?", (restyle_instant(text, forms[n % len(forms)]), key))
+            elif name == "ts_T":                   # every row: 'T' between date and time
+                c.execute("UPDATE eventmodel SET timestamp = replace(timestamp, ' ', 'T')")
+            elif name == "ts_frac6":               # every row: six fractional digits, also .000000
+                c.execute("UPDATE eventmodel SET timestamp = substr(timestamp, 1, 19) || '.000000' || substr(timestamp, 20) "
+                          "WHERE substr(timestamp, 20, 1) <> '.'")
+            elif name == "ts_mixed_T":             # every k-th row
+                c.execute("UPDATE eventmodel SET timestamp = replace(timestamp, ' ', 'T') WHERE id % ? = 0", (max(2, int(step[1])),))
+            elif name == "ts_Z":
+                c.execute("UPDATE eventmodel SET timestamp = replace(timestamp, '+00:00', 'Z') WHERE id % ? = 0", (max(1, int(step[1])),))
+            elif name == "ts_offset":              # every k-th row in local time with its offset (same instant)
+                c.execute("BEGIN")
+                for i, text in c.execute("SELECT id, timestamp FROM eventmodel WHERE id % ? = 0", (max(1, int(step[1])),)).fetchall():
+                    form = ["offset", "neg-offset-space", "hour-offset"][i % 3]
+                    c.execute("UPDATE eventmodel SET timestamp = ? WHERE id = ?", (restyle_instant(text, form).replace("T", " "), i))
+                c.execute("COMMIT")
+            elif name == "id_shift":
+                c.execute("UPDATE eventmodel SET id = -id")          # two passes: ids stay unique on the way
+                c.execute("UPDATE eventmodel SET id = -id + ?", (int(step[1]),))
+            elif name == "id_reverse":
+                m = c.execute("SELECT coalesce(max(id), 0) FROM eventmodel").fetchone()[0]
+                c.execute("UPDATE eventmodel SET id = -id")
+                c.execute("UPDATE eventmodel SET id = ? + 1 + id", (m,))
+            elif name == "key_shift":
+                c.execute("PRAGMA foreign_keys = OFF")
+                c.execute("BEGIN")
+                c.execute("UPDATE bucketmodel SET key = -key")
+                c.execute("UPDATE eventmodel SET bucket_id = -bucket_id")
+                c.execute("UPDATE bucketmodel SET key = -key + ?", (int(step[1]),))
+                c.execute("UPDATE eventmodel SET bucket_id = -bucket_id + ?", (int(step[1]),))
+                c.execute("COMMIT")
+            elif name == "journal":                # "delete" | "wal" (the two modes a file remembers)
+                c.execute("PRAGMA journal_mode = " + {"delete": "DELETE", "wal": "WAL"}[step[1]])
+            elif name == "page_size":
+                if c.execute("PRAGMA journal_mode").fetchone()[0] == "wal":
+                    c.execute("PRAGMA journal_mode = DELETE")
+                c.execute("PRAGMA page_size = %d" % int(step[1]))
+                c.execute("VACUUM")
+            elif name == "auto_vacuum":
+                c.execute("PRAGMA auto_vacuum = %d" % int(step[1]))
+                c.execute("VACUUM")
+            elif name == "user_version":
+                c.execute("PRAGMA user_version = %d" % int(step[1]))
+            elif name == "application_id":
+                c.execute("PRAGMA application_id = %d" % int(step[1]))
+            elif name == "schema_cookie":          # many schema changes behind it (the header's schema cookie is high)
+                for k in range(int(step[1])):
+                    c.execute(f"CREATE TABLE tmp_{k} (x)")
+                    c.execute(f"DROP TABLE tmp_{k}")
+            elif name == "extra_table":
+                c.execute("CREATE TABLE IF NOT EXISTS settingsmodel (key VARCHAR(255) NOT NULL PRIMARY KEY, value TEXT)")
+                c.execute("INSERT OR REPLACE INTO settingsmodel VALUES ('startOfDay', '\"04:00\"')")
+            elif name == "extra_column":           # a newer schema: one more nullable column on either table
+                c.execute("ALTER TABLE bucketmodel ADD COLUMN color VARCHAR(255)")
+                c.execute("ALTER TABLE eventmodel ADD COLUMN synced INTEGER DEFAULT 0")
+            elif name == "extra_index":
+                c.execute("CREATE INDEX IF NOT EXISTS eventmodel_bucket_ts ON eventmodel (bucket_id, timestamp)")
+            elif name == "drop_index":             # an older schema: one of peewee's own indexes is not there yet
+                c.execute("DROP INDEX IF EXISTS " + step[1])
+            elif name == "orphans":                # event rows of a bucket that is gone (no bucket row): content of no bucket
+                k0 = c.execute("SELECT coalesce(max(key), 0) + 100 FROM bucketmodel").fetchone()[0]
+                i0 = c.execute("SELECT coalesce(max(id), 0) FROM eventmodel").fetchone()[0]
+                c.executemany("INSERT INTO eventmodel (id, bucket_id, timestamp, duration, datastr) VALUES (?, ?, ?, ?, ?)",
+                              [(i0 + 1 + j, k0 + j % 2, "2019-0%d-01 00:00:00+00:00" % (1 + j % 9), j, '{"orphan": %d}' % j)
+                               for j in range(int(step[1]))])
+            elif name == "churn":                  # free pages: rows were written and deleted again
+                c.execute("CREATE TABLE churn (x)")
+                c.execute("BEGIN")
+                c.executemany("INSERT INTO churn VALUES (?)", [("y" * 400,) for _ in range(int(step[1]))])
+                c.execute("COMMIT")
+                c.execute("DROP TABLE churn")
+            else:
+                raise ValueError("raw step " + str(step))
+        finally:
+            c.close()
+    after = raw_content(path)
+    if after != before:
+        raise RuntimeError(f"harness: raw steps {steps} changed the content of {path}")
+
+
+def file_diff(before_copy, now):
+    """what differs between a copy of a legacy file taken before the construction and the file now: header fields,
+    schema objects, rows (value and storage class per column).  Read on copies; text for the violation report."""
+    import shutil
+    import sqlite3
+    import struct
+    import tempfile
+    out = []
+    try:
+        ha, hb = open(before_copy, "rb").read(100), open(now, "rb").read(100)
+        for name, off, fmt in (("page size", 16, ">H"), ("write version (1 = rollback journal, 2 = WAL)", 18, "B"),
+                               ("read version", 19, "B"), ("change counter", 24, ">I"), ("pages", 28, ">I"),
+                               ("freelist pages", 36, ">I"), ("schema cookie", 40, ">I"), ("user_version", 60, ">I"),
+                               ("application_id", 68, ">I")):
+            a, b = struct.unpack_from(fmt, ha, off)[0], struct.unpack_from(fmt, hb, off)[0]
+            if a != b:
+                out.append(f"header {name}: {a} -> {b}")
+        tmp = tempfile.mkdtemp(prefix="c14-diff-")
+        try:
+            conns = []
+            for k, p in enumerate((before_copy, now)):
+                for ext in ("", "-wal"):
+                    if os.path.exists(p + ext):
+                        shutil.copy2(p + ext, os.path.join(tmp, f"f{k}.db{ext}"))
+                conns.append(sqlite3.connect(os.path.join(tmp, f"f{k}.db")))
+            ca, cb = conns
+            sa = set(ca.execute("SELECT type, name, sql FROM sqlite_master"))
+            sb = set(cb.execute("SELECT type, name, sql FROM sqlite_master"))
+            for x in sorted(sb - sa, key=str):
+                out.append(f"schema object added: {x[0]} {x[1]}: {x[2]}")
+            for x in sorted(sa - sb, key=str):
+                out.append(f"schema object removed: {x[0]} {x[1]}")
+            for table, pk in (("bucketmodel", "key"), ("eventmodel", "id")):
+                rows = []
+                for c in (ca, cb):
+                    cols = [r[1] for r in c.execute(f"PRAGMA table_info({table})")]
+                    sel = ", ".join(f'"{x}", typeof("{x}")' for x in cols)
+                    rows.append({r[0]: dict(zip(cols, zip(r[1::2], r[2::2]))) for r in c.execute(f'SELECT "{pk}", {sel} FROM {table}')})
+                ra, rb = rows
+                n = 0
+                for k in sorted(set(ra) | set(rb)):
+                    if ra.get(k) != rb.get(k):
+                        n += 1
+                        if n <= 3:
+                            if k not in ra or k not in rb:
+                                out.append(f"{table} row {pk}={k} {'added' if k not in ra else 'removed'}")
+                            else:
+                                d = {c: f"{ra[k].get(c)} -> {rb[k].get(c)}" for c in set(ra[k]) | set(rb[k]) if ra[k].get(c) != rb[k].get(c)}
+                                out.append(f"{table} row {pk}={k}: (value, storage class) {d}")
+                if n > 3:
+                    out.append(f"{table}: {n} rows differ")
+            for c in conns:
+                c.close()
+        finally:
+            shutil.rmtree(tmp, ignore_errors=True)
+    except Exception as ex:  # noqa: BLE001 -- diagnostics only
+        out.append(f"(no row-level comparison: {type(ex).__name__}: {ex})")
+    return "; ".join(out) if out else "no difference in header fields, schema or rows (page layout / other bytes only)"
